@@ -1307,7 +1307,12 @@ func (ts *Service) convertToClientVarFromTick(kvar tick.Var) (client.Var, error)
 	case ast.TLambda:
 		typ = client.VarLambda
 		if l, ok := v.(*ast.LambdaNode); ok {
-			v = l.ExpressionString()
+			// A var set to a lambda var that has no value yet holds a nil node.
+			if l != nil {
+				v = l.ExpressionString()
+			} else {
+				v = nil
+			}
 		} else if v != nil {
 			return client.Var{}, fmt.Errorf("invalid lambda value type, expected: *ast.LambdaNode, got %T", v)
 		}
@@ -1316,7 +1321,11 @@ func (ts *Service) convertToClientVarFromTick(kvar tick.Var) (client.Var, error)
 	case ast.TRegex:
 		typ = client.VarRegex
 		if r, ok := v.(*regexp.Regexp); ok {
-			v = r.String()
+			if r != nil {
+				v = r.String()
+			} else {
+				v = nil
+			}
 		} else if v != nil {
 			return client.Var{}, fmt.Errorf("invalid regex value type, expected: *regexp.Regexp, got %T", v)
 		}
